@@ -242,7 +242,14 @@ func (x *Exec) sprintf(f string, args []Value) Str {
 // formatV renders a value the way %v does (exact for strings, bools, nil and concrete
 // integers; symbolic integers are enumerated over a small range).
 func (x *Exec) formatV(v Value, verb byte) Str {
+	if it, ok := v.(Iface); ok {
+		if rv, isRV := it.V.(ReflectV); isRV { // fmt prints the value a reflect.Value holds
+			return x.formatV(rv.I, verb)
+		}
+	}
 	switch c := v.(type) {
+	case ReflectV:
+		return x.formatV(c.I, verb)
 	case Iface, *Lazy:
 		it := x.asIface(c)
 		if it.T == nil {
